@@ -521,7 +521,7 @@ func (l *Lexer) consumeQuotedContent(q string, raw, unicode bool, name string, n
 							hasError = true
 							continue
 						}
-						l.panicfAtPosition(token.Pos(l.pos+i-2), token.Pos(l.pos+i+j+1), "invalid escape sequence: hex escape sequence must be follwed by 2 hex digits")
+						l.panicfAtPosition(token.Pos(l.pos+i-2), token.Pos(min(l.pos+i+j+1, len(l.Buffer))), "invalid escape sequence: hex escape sequence must be follwed by 2 hex digits")
 					}
 				}
 				u, err := strconv.ParseUint(l.slice(i, i+2), 16, 8)
@@ -552,7 +552,7 @@ func (l *Lexer) consumeQuotedContent(q string, raw, unicode bool, name string, n
 							hasError = true
 							continue
 						}
-						l.panicfAtPosition(token.Pos(l.pos+i-2), token.Pos(l.pos+i+j+1), "invalid escape sequence: \\%c must be followed by %d hex digits", c, size)
+						l.panicfAtPosition(token.Pos(l.pos+i-2), token.Pos(min(l.pos+i+j+1, len(l.Buffer))), "invalid escape sequence: \\%c must be followed by %d hex digits", c, size)
 					}
 				}
 				u, err := strconv.ParseUint(l.slice(i, i+size), 16, 32)
@@ -581,7 +581,7 @@ func (l *Lexer) consumeQuotedContent(q string, raw, unicode bool, name string, n
 							hasError = true
 							continue
 						}
-						l.panicfAtPosition(token.Pos(l.pos+i-2), token.Pos(l.pos+i+j+1), "invalid escape sequence: octal escape sequence must be follwed by 3 octal digits")
+						l.panicfAtPosition(token.Pos(l.pos+i-2), token.Pos(min(l.pos+i+j+1, len(l.Buffer))), "invalid escape sequence: octal escape sequence must be follwed by 3 octal digits")
 					}
 				}
 				u, err := strconv.ParseUint(l.slice(i-1, i+2), 8, 8)
